@@ -84,7 +84,7 @@ ASSUMPTIONS = ["paths are syntactically absolute; two path strings with the same
                "a path and a proper extension of it are never both committed in one store (C11 rejects that within an evaluation)",
                "DBFS is exercised over the in-process fake of the dbutils file-system API (harness/fakedbutils.py)"]
 
-SEGS = ["a", "b", "ab", "a b", "é", "a.b", "c", "x.tmp", "a.1.x.tmp", "k.meta"]
+SEGS = ["a", "b", "ab", "a b", "é", "a.b", "c", "x.tmp", "a.1.x.tmp", "k.meta", ".a", ".staging", "..b", "a."]
 BAD = [".", ".."]
 KEYS = ["k%d" % i for i in range(6)]
 
@@ -203,9 +203,14 @@ def run(ctx):
              ["sync", [["/zz", "k2"]]], ["fetch_paths", ["/a.1.x.tmp"]], ["fetch", "k1"], ["has", "k2"]],
             [["store", "k1", 3], ["sync", [["/e/x.tmp", "k1"]]], ["store", "k2", 4], ["sync", [["/e/y.tmp", "k2"], ["/e/z", "k2"]]], ["fetch_paths", ["/e/x.tmp", "/e/y.tmp"]],
              ["reopen"], ["sync", [["/e/z", "k1"]]], ["fetch_paths", ["/e/x.tmp", "/e/y.tmp", "/e/z"]]],
+            # names that differ by a leading dot (hidden directories next to visible ones), first and later segments
+            [["store", "k1", 5], ["store", "k2", 6], ["sync", [["/staging/model", "k1"]]], ["fetch_paths", ["/.staging/model"]], ["sync", [["/.staging/model", "k2"]]],
+             ["fetch_paths", ["/staging/model", "/.staging/model"]], ["sync", [["/.a", "k1"], ["/a", "k2"], ["/m/.a", "k2"], ["/m/a", "k1"]]], ["reopen"],
+             ["fetch_paths", ["/.a", "/a", "/m/.a", "/m/a", "/staging/model", "/.staging/model"]]],
         ]
-        if i < len(DIRECTED) and not dangling:
-            ops = [list(o) for o in DIRECTED[i]]
+        di = i - (i + 1) // 4          # the index among the sequences that are not 'dangling'
+        if di < len(DIRECTED) and not dangling:
+            ops = [list(o) for o in DIRECTED[di]]
         if ctx.get("replay") and i == 0:
             rp = json.load(open(ctx["replay"]))
             inp = rp.get("violation", {}).get("input") or {}
